@@ -11,7 +11,7 @@ type opt func(*Scenario)
 
 func scen(name string, n int, opts ...opt) *Scenario {
 	sc := &Scenario{Name: name, N: n, AMEV: -1, MaxView: 2, Pool: []H{101, 102, 103, 104, 105, 106}, K: 2}
-	sc.Dev = Dev{Reorder: true, Premature: true, Dup: true, Stale: true, Perm: true}
+	sc.Dev = Dev{Reorder: true, Premature: true, Dup: true, Stale: true, Perm: true, Hold: true}
 	for _, o := range opts {
 		o(sc)
 	}
@@ -228,7 +228,15 @@ func needKinds(kinds ...string) func(*Aggregate) string {
 
 func init() {
 	e1Check("C02", "E1 safety-mode exploration (<=k deviations around each base, Byzantine menu incl. early/garbage/other-view commits and pre-commits); oracle at every ProcessBlock/ProcessPreBlock: >=M current-view (pre)commits whose signatures verify against exactly that block (re-evaluated by the oracle), block extends the ledger tip, equals the primary's proposal",
-		func(tier string) []*Job { return append(safetyFamily(tier, []int64{-1, 0}), e2Family(tier, []int64{-1, 0})...) }, needKinds("Commit", "PreCommit"))
+		func(tier string) []*Job {
+			j := append(safetyFamily(tier, []int64{-1, 0}), e2Family(tier, []int64{-1, 0})...)
+			// watch-only observers accept blocks too
+			sp := E2Spec{Views: 2, Proposals: "A", Responses: "A", Commits: "AG", PreCommits: "AG", CVs: 1, Bundles: true, MaxDepth: 10, StateCap: 300_000, Peers: []int{0, 1, 3}}
+			j = append(j, job(e2WatchScen("E2-watchflag-x2-start5-amev-on", 4, 2, false, 0, false, 5, sp), 100))
+			sp.PreCommits = ""
+			j = append(j, job(e2WatchScen("E2-outside-amev-off", 4, 0, true, -1, false, 4, sp), 100))
+			return j
+		}, needKinds("Commit", "PreCommit"))
 	e1Check("C03", "E1 safety-mode exploration; oracle on every honest node's complete Broadcast history per height: <=1 proposal / response per view, <=1 commit and pre-commit per height (also inside recovery messages), no view move or ChangeView after own (pre)commit, own message views non-decreasing",
 		func(tier string) []*Job { return append(safetyFamily(tier, []int64{-1, 0}), e2Family(tier, []int64{-1, 0})...) }, needKinds("Commit", "PreCommit", "CV", "RecMsg"))
 	e1Check("C04", "E1 safety-mode exploration; oracle at each Broadcast / view increase, evaluated on the exported Context at that instant: response only for the designated primary's verified complete proposal naming its hash; (pre)commit only with proposal, all transactions and >=M preparations naming it; view v entered only with change views >=v from >=M validators (monitor's own record)",
